@@ -83,7 +83,7 @@ func c09Spec(c *sim.Ctx) *ref.Spec {
 		case 1, 2: // action node producing values, then bindings branching that inspects them
 			a := &ref.Action{}
 			for i := 0; i < 1+c.Intn(3, "c09ops"); i++ {
-				switch c.Intn(10, "c09op") {
+				switch c.Intn(11, "c09op") {
 				case 0, 1, 2, 3:
 					a.Ops = append(a.Ops, ref.Op{Kind: "set", K: bsKeys[c.Intn(3, "c09k")], V: val()})
 				case 4:
@@ -94,6 +94,9 @@ func c09Spec(c *sim.Ctx) *ref.Spec {
 					a.Ops = append(a.Ops, ref.Op{Kind: "throw"})
 				case 7:
 					a.Ops = append(a.Ops, ref.Op{Kind: "del", K: "?q"})
+				case 10:
+					// a pattern variable bound by the action (an integer) and re-used by a later message pattern
+					a.Ops = append(a.Ops, ref.Op{Kind: "set", K: "?v", V: []interface{}{1.0, 2.0}[c.Intn(2, "boundv")]})
 				case 8, 9:
 					// a numeric bound for an inequality variable (integer or fraction)
 					iv := []string{"?<n", "?>=n", "?!=n"}[c.Intn(3, "ineqvar")]
